@@ -173,6 +173,9 @@ def run(ctx):
         from real import rsync_trace
 
         protos = [rsync_trace.run_one(gw, os.path.join(ctx.scratch, "proto"), rng) for _ in range(120 if ctx.quick else 1500)]
+        from real import rsync_filter
+
+        filt = [rsync_filter.run_case(gw, os.path.join(ctx.scratch, "filter"), rng, i) for i in range(150 if ctx.quick else 2000)]
         from real import rsync_rounds
 
         rwords = rsync_rounds.words(3 if ctx.quick else 5)
@@ -208,6 +211,11 @@ def run(ctx):
             ctx.note(f"{vd}: {json.dumps(c)[:200]}")
         elif vd != "ok":
             ctx.violation(f"{vd}: {json.dumps(c)[:300]}", c)
+    # an overridden filter(): rejected entries (and everything below them) are not part of the source for the sync
+    for c, vd in zip(filt, batch.judge("RSyncFilterCases", filt, ctx.scratch)):
+        hist["filter:" + vd] = hist.get("filter:" + vd, 0) + 1
+        if vd != "ok":
+            ctx.violation(f"{vd}: {json.dumps(c)[:500]}", c)
     pverdicts = batch.judge("RSyncProtoCases", protos, ctx.scratch)
     for c, vd in zip(protos, pverdicts):
         hist["proto:" + vd] = hist.get("proto:" + vd, 0) + 1
